@@ -73,8 +73,11 @@ func (e *Exec) constString(v Value) string {
 	return c
 }
 
-// doAssert discharges path ∧ ¬c. With a listed known-finding id the failure is
-// split into "inside the region" (reported as KNOWN-FINDING) and "outside".
+// doAssert records the obligation path ∧ ¬c. Obligations of one path are
+// discharged together at the end of the path (flushAsserts): one query
+// OR_i (pc_i ∧ ¬c_i); only if that is sat are they decided one by one. With a
+// listed known-finding id the failure is split into "inside the region"
+// (reported as KNOWN-FINDING) and "outside".
 func (e *Exec) doAssert(c *Node, label, knownID string, region *Node) {
 	if c.IsTrue() {
 		e.nAssertOK++
@@ -83,43 +86,85 @@ func (e *Exec) doAssert(c *Node, label, knownID string, region *Node) {
 	listed := knownID != "" && e.eng.known.Listed(knownID)
 	if listed {
 		in := e.tb.BAnd(region, e.tb.BNot(c))
-		v, _, _, _ := e.query(in, false)
+		v, _, _, _ := e.queryAt(len(e.pc), nil, in, false)
 		if v == Sat {
 			e.knowns = append(e.knowns, knownID)
 		} else if v == Unknown {
 			e.asserts = append(e.asserts, AssertOutcome{Label: label, Verdict: Unknown, Inconcl: "known-finding region query unknown"})
 		}
 		c = e.tb.BOr(c, region)
-	}
-	neg := e.tb.BNot(c)
-	t0 := time.Now()
-	v, vec, obs, why := e.query(neg, true)
-	out := AssertOutcome{Label: label, Verdict: v, Inconcl: why, QueryTime: time.Since(t0).Seconds()}
-	switch v {
-	case Unsat:
-		e.nAssertOK++
-	case Sat:
-		out.Vector = vec
-		out.Observes = obs
-		e.asserts = append(e.asserts, out)
-	default:
-		e.asserts = append(e.asserts, out)
-	}
-	// continue under the asserted condition so later assertions are independent
-	e.assume(c)
-	if v == Sat {
-		if e.feasible(e.tb.True()) == Unsat {
-			panic(pathEnd{EndHalt, "path ends after violated assertion " + label})
+		if c.IsTrue() {
+			e.nAssertOK++
+			return
 		}
+	}
+	e.pending = append(e.pending, pendingAssert{c: c, label: label, pcLen: len(e.pc), nObs: len(e.obsTerms), nNondet: len(e.nondet)})
+}
+
+type pendingAssert struct {
+	c       *Node
+	label   string
+	pcLen   int
+	nObs    int
+	nNondet int
+}
+
+func (e *Exec) flushAsserts() {
+	if len(e.pending) == 0 {
+		return
+	}
+	pend := e.pending
+	e.pending = nil
+	t := e.tb
+	// batch: OR_i (pc[:k_i] ∧ ¬c_i); pcs are nested prefixes
+	if len(pend) > 1 {
+		disj := t.False()
+		for _, p := range pend {
+			conj := t.BNot(p.c)
+			for _, a := range e.pc[:p.pcLen] {
+				conj = t.BAnd(conj, a)
+			}
+			disj = t.BOr(disj, conj)
+		}
+		e.nQueries++
+		v, _, _ := e.solver.Check(t.Query([]*Node{disj}), e.cfg.AssertTimeoutMs, nil)
+		if v == Unsat {
+			e.nAssertOK += len(pend)
+			return
+		}
+	}
+	var held []*Node // earlier assertions are assumed when deciding later ones
+	for _, p := range pend {
+		t0 := time.Now()
+		v, vec, obs, why := e.queryAt(p.pcLen, held, t.BNot(p.c), true)
+		out := AssertOutcome{Label: p.label, Verdict: v, Inconcl: why, QueryTime: time.Since(t0).Seconds()}
+		switch v {
+		case Unsat:
+			e.nAssertOK++
+		case Sat:
+			out.Vector = vec
+			if len(obs) > p.nObs {
+				obs = obs[:p.nObs]
+			}
+			out.Observes = obs
+			e.asserts = append(e.asserts, out)
+		default:
+			e.asserts = append(e.asserts, out)
+		}
+		held = append(held, p.c)
 	}
 }
 
-// query checks pc ∧ extra and, on sat, returns the nondet vector and observes.
 func (e *Exec) query(extra *Node, wantModel bool) (Verdict, []NondetEntry, []string, string) {
+	return e.queryAt(len(e.pc), nil, extra, wantModel)
+}
+
+// query checks pc ∧ extra and, on sat, returns the nondet vector and observes.
+func (e *Exec) queryAt(pcLen int, held []*Node, extra *Node, wantModel bool) (Verdict, []NondetEntry, []string, string) {
 	if extra.IsFalse() {
 		return Unsat, nil, nil, ""
 	}
-	roots := append(append([]*Node{}, e.pc...), extra)
+	roots := append(append(append([]*Node{}, e.pc[:pcLen]...), held...), extra)
 	// bind every nondet variable and observe term so get-value can name them
 	var names []string
 	var binds []*Node
